@@ -399,8 +399,10 @@ def evaluate__pow(self: XPathFunction, context: ta.ContextType = None) -> ta.One
 
     try:
         return float(x ** y)
-    except TypeError:
+    except (TypeError, decimal.InvalidOperation):
         return math.nan
+    except (OverflowError, decimal.Overflow):
+        return -math.inf if x < 0 and y % 2 == 1 else math.inf  # xs:double overflow
 
 
 @method(function('sqrt', prefix='math', nargs=1,
